@@ -53,6 +53,16 @@ def started_after_cancel(out, hdr):
     return late
 
 
+def window_suspects_in(lines, out):
+    """True if some cancelled build of this trace completed a task whose discovered dependency was never looked at in it."""
+    builds = K.parse_impl(out)
+    for b, rules, env, restarts in K.Scenario(lines).walk(builds):
+        val, cancelled = K.result_value(b)
+        if (cancelled or any(x.startswith("cancel-sent") for x in b["other"])) and window_suspects(b, rules):
+            return True
+    return False
+
+
 def judge(chk, lines, out, origin, sess=None, tag=None):
     """All oracles over one implementation trace. Returns list of (key, what)."""
     bad = []
@@ -155,6 +165,10 @@ CORPUS = [
      ["build 4", "set 1 3", "build 4"], "4"),
     ("same-engine-dyn-db", ["db 1", "rule 0 sig=0 obs=1", "rule 1 sig=0 obs=1", "rule 2 sig=0 obs=1", "rule 4 sig=1 obs=0 req=0 br=0:1,2:2,1", "rule 5 sig=0 obs=0 req=4", "set 0 1", "set 1 1", "set 2 1", "build 5", "set 2 2"],
      ["build 5", "set 1 3", "build 4"], "5"),
+    # a cancelled build commits the rows of the tasks that finished (stamped N) and must persist iteration N as well: otherwise a
+    # new engine over the database re-issues epoch N and a dependent stored in the cancelled build is never re-run (stale for ever)
+    ("iteration-persisted", ["db 1", "rule 0 sig=0 obs=1", "rule 4 sig=0 obs=0 req=0", "rule 5 sig=0 obs=0 req=4", "rule 7 sig=0 obs=0 req=5", "set 0 1", "build 7", "set 0 2"],
+     ["restart", "set 0 3", "build 7", "build 5"], "7"),
     # discovered-dependency window (known finding): R=3 requests A=0, discovers D=1; both change; cancel right after R completed;
     # D returns to its earlier stamp
     ("disc-window", ["db 1", "rule 0 sig=0 obs=1", "rule 1 sig=0 obs=1", "rule 4 sig=1 obs=0 req=0 disc=1", "set 0 1", "set 1 1", "build 4", "set 0 2", "set 1 2"],
